@@ -138,6 +138,7 @@ def run_case(rs, ctx):
     desc, thunk = make(rs, cfg, sh)
     T = copy.deepcopy(M)
     arms_before = list(M.arms)
+    ps0 = twin.process_state()
     try:
         thunk(M)
     except Exception as ex:  # noqa: BLE001
@@ -151,6 +152,12 @@ def run_case(rs, ctx):
     ctx.count("rejected_class:" + name)
     wit = {"cfg": cfg, "history": hist, "position": pos, "class": name, "rejected_call": desc, "exception": exn}
     ctx.ev()
+    psd = twin.process_state_diff(ps0, twin.process_state())
+    if psd:
+        ctx.violation("%s [%s]: the rejected %s left interpreter-wide state changed (%s): later calls of any bandit behave differently "
+                      "from a process in which the call was never made" % (gen.cfg_sig(cfg), name, desc, ", ".join(psd)), wit,
+                      kind="process_state|" + name)
+        return
     if list(M.arms) != arms_before or [type(a) for a in M.arms] != [type(a) for a in arms_before]:
         ctx.violation("%s [%s]: rejected %s changed the arm list %r -> %r" % (gen.cfg_sig(cfg), name, desc, arms_before, M.arms), wit)
         return
